@@ -40,6 +40,7 @@ func init() {
 					out = append(out, c)
 				}
 			}
+			out = append(out, decoReuseCases(tier)...)
 			for w := 0; w <= 2; w++ {
 				for n := 1; n <= nestN; n++ {
 					c := cs("H_C07_Nested", w, n)
